@@ -102,6 +102,16 @@ def scenario_projects() -> List[Dict[str, Any]]:
                  "class Sub(Base):\n    '''sub'''\n    def other(self):\n        pass\n"
                  "class Sub2(Base):\n    '''sub2'''\n    def other(self): pass\n    def meth(self):\n        '''own'''\n"),
     ], [])
+    # the same with the links in @see / @note / @author / @since fields: FieldHandler only stores these fields and formats
+    # them in FieldHandler.format(), after format_docstring's switch_context(obj) blocks have ended
+    add("inherited-docstring-late-fields", [
+        U("inl", "class Base:\n    '''base'''\n    def other(self):\n        '''o'''\n"
+                 "    def m(self):\n        '''The m.\n\n        @see: L{other}\n        @note: also L{other}\n"
+                 "        @author: the author of L{Base.other}\n        @since: L{other} exists\n        '''\n"
+                 "    attr = 1\n    '''an attribute\n\n    @see: L{m}\n    '''\n"
+                 "class Sub(Base):\n    '''sub'''\n    def m(self):\n        pass\n    attr = 2\n"
+                 "class Sub2(Base):\n    '''sub2 defines the sibling itself'''\n    def m(self): pass\n    def other(self):\n        '''own'''\n"),
+    ], [])
     # hidden roots: the only root / one of two
     # class index: a base that could not be resolved although a class of that name exists (import cycle + re-export)
     # shares its dict key with that class, which is registered later and overwrites the entry
@@ -115,6 +125,15 @@ def scenario_projects() -> List[Dict[str, Any]]:
         U("fn", "\"\"\"\nText with a footnote [1]_.\n\n.. [1] The note.\n\"\"\"\n"
                 "__docformat__ = 'restructuredtext'\ndef f():\n    \"\"\"Summary line.\n\n    Section\n    =======\n\n    body\n    \"\"\"\n"
                 "class K:\n    \"\"\"Title\n    =====\n\n    Sub\n    ---\n\n    text\n    \"\"\"\n"),
+    ], [])
+    # reStructuredText internal reference (`name_` -> `.. _name:`) in the first sentence: the summary is copied to the
+    # parent's table, moduleIndex / classIndex / all-documents, the target stays on the object's page
+    add("rst-summary-internal-reference", [
+        U("rr", "\"\"\"See details_ for more.\n\nLater.\n\n.. _details:\n\nThe details paragraph.\n\"\"\"\n"
+                "__docformat__ = 'restructuredtext'\n"
+                "class K:\n    \"\"\"Read notes_ first.\n\n    .. _notes:\n\n    The notes.\n    \"\"\"\n"
+                "    def f(self):\n        \"\"\"Uses `the target`_ here.\n\n        .. _the target:\n\n        Target paragraph.\n        \"\"\"\n"
+                "def g():\n    \"\"\"Plain summary.\n\n    Body refers to more_.\n\n    .. _more:\n\n    More.\n    \"\"\"\n"),
     ], [])
     # a re-exported function keeps the linker (and its page) of the module it was defined in
     add("reexported-function-context", [
@@ -289,11 +308,23 @@ def random_project(rng) -> List[Unit]:
     cands += ["f", "g", "x", "K.f", "Base", "_Q", "run", "nosuch.thing"]
     out = []
     for u in units:
+        # names of the methods / functions of this unit: a late field often names a sibling by its bare name
+        siblings = re.findall(r"^\s*def ([A-Za-z_][A-Za-z_0-9]*)\(", u.source, flags=re.M)
+
         def plant(m):
+            body = "%s %s" % (m.group(1), m.group(2))
+            hit = False
             if rng.random() < 0.45 and cands:
-                t = rng.choice(cands)
-                return "'''%s %s see L{%s}'''" % (m.group(1), m.group(2), t)
-            return m.group(0)
+                body += " see L{%s}" % rng.choice(cands)
+                hit = True
+            # fields that FieldHandler.format() formats itself (@see, @note, @author, @since): when the docstring is
+            # inherited by an override without docstring, their links are made for the page of the base class
+            if m.group(1) in ("m", "f", "attr doc") and rng.random() < 0.25 and (cands or siblings):
+                for tag in rng.sample(["see", "note", "author", "since", "seealso"], rng.choice([1, 1, 2])):
+                    t = rng.choice(siblings) if siblings and rng.random() < 0.6 else rng.choice(cands or siblings)
+                    body += "\n\n@%s: L{%s}" % (tag, t) if not hit else "\n@%s: L{%s}" % (tag, t)
+                    hit = True
+            return "'''%s'''" % body if hit else m.group(0)
 
         def plant2(m):
             if rng.random() < 0.45 and cands:
@@ -303,7 +334,19 @@ def random_project(rng) -> List[Unit]:
         src = DOC_HOOK.sub(plant2, src)
         # a sectioned docstring (epytext and reStructuredText share the underlined-title syntax): sidebar tables of
         # contents, heading back-references
-        if rng.random() < 0.3:
+        r_sect = rng.random()
+        if 0.3 <= r_sect < 0.42 and "L{" not in src and not re.search(r"^\s*@(ivar|cvar|type|see|seealso|note|author|since)\b", src, flags=re.M):
+            # a reStructuredText module whose summaries hold internal references (`name_` -> `.. _name:`): the summary
+            # is copied to other pages (tables, moduleIndex, classIndex, all-documents), the target is not
+            src = re.sub(r'^("""module [^\n]*?)"""',
+                         lambda m: m.group(1) + " see details_ here.\n\nMore.\n\n.. _details:\n\nthe details\n" + '"' * 3,
+                         src, count=1, flags=re.M)
+            src = re.sub(r'^(    """doc of [^\n]*)\n    """',
+                         lambda m: m.group(1) + " with notes_ first.\n\n    .. _notes:\n\n    the notes\n    " + '"' * 3,
+                         src, flags=re.M)
+            if "__docformat__" not in src:
+                src += "\n__docformat__ = 'restructuredtext'\n"
+        if r_sect < 0.3:
             sect = "\n\nUsage\n=====\n\nuse it\n\nDetails\n-------\n\nmore\n"
             src = re.sub(r'^("""module [^\n]*?)"""', lambda m: m.group(1) + sect + '"""', src, count=1, flags=re.M)
             src = re.sub(r'^(    """doc of [^\n]*)\n    """', lambda m: m.group(1) + "\n\n    Notes\n    =====\n\n    n\n    \"\"\"", src, flags=re.M)
@@ -611,6 +654,23 @@ def run_cases(cases: Sequence[Dict[str, Any]], jobs: int = 16) -> List[Dict[str,
 
 # =========================================================================== facts of the real System
 
+FIELD_START = re.compile(r"^\s*@(\w+)(?:[ \t]+[^:\n]*)?:", re.M)
+LATE_FIELD_TAGS = ("see", "seealso", "note", "author", "since")
+
+
+def split_late_fields(doc: str) -> List[Tuple[bool, str]]:
+    """an epytext docstring cut at its field markers: (is a late-formatted field, text). @see/@seealso/@note/@author/
+    @since are only stored by FieldHandler.handle_* and formatted in FieldHandler.format(); the body and every
+    other field are formatted inside format_docstring's switch_context(obj) blocks"""
+    out: List[Tuple[bool, str]] = []
+    pos, late = 0, False
+    for m in FIELD_START.finditer(doc):
+        out.append((late, doc[pos:m.start()]))
+        pos, late = m.start(), m.group(1) in LATE_FIELD_TAGS
+    out.append((late, doc[pos:]))
+    return out
+
+
 L_XREF = re.compile(r"L\{([^}<]+?)(?:\s*<([^>]+)>)?\}")
 
 
@@ -744,15 +804,19 @@ def extract_facts(system) -> Dict[str, Any]:
         # displayed docstring: its source and the targets of its L{...}
         doc, source = model.get_docstring(o)
         xrefs: List[int] = []
+        laterefs: List[int] = []
         if doc is not None and source is not None:
-            for m in L_XREF.finditer(doc):
-                t = resolve_xref(source, (m.group(2) or m.group(1)).strip())
-                if t is not None:
-                    xrefs.append(t)
+            for late, chunk in split_late_fields(doc):
+                for m in L_XREF.finditer(chunk):
+                    t = resolve_xref(source, (m.group(2) or m.group(1)).strip())
+                    if t is not None:
+                        (laterefs if late else xrefs).append(t)
         elif source is None and o.parsed_docstring is not None:
             source = o.parent          # documented by a field of the parent's docstring
         rec["docsource"] = oid(source)
         rec["xrefs"] = xrefs
+        # links in the fields that FieldHandler.format() formats itself, after switch_context(obj) has ended
+        rec["laterefs"] = laterefs
         # the page object remembered by the linker that renders this docstring (stale after a re-export)
         rec["docctx"] = oid(getattr(source.docstring_linker, "_page_object", None)) if source is not None else None
         rec["module"] = i if isinstance(o, model.Module) else oid(o.parentMod)
@@ -878,6 +942,29 @@ def _text(tag) -> str:
     return "".join(tag.stripped_strings)
 
 
+LATE_FIELD_LABELS = ("Author", "Authors", "See Also", "Present Since", "Note", "Notes")
+
+
+def _in_late_field(a) -> bool:
+    """the link is in the body of a field that `FieldHandler.format()` formats itself (`format_field_list`: a
+    `tr.fieldStart` row with the label, then one row per field): @author, @see, @since, @note"""
+    tr = a.find_parent("tr")
+    while tr is not None:
+        table = tr.find_parent("table")
+        if table is not None and "fieldTable" in _classes(table):
+            break
+        tr = tr.find_parent("tr")
+    if tr is None:
+        return False
+    cur = tr
+    while cur is not None:
+        if getattr(cur, "name", None) == "tr" and "fieldStart" in _classes(cur):
+            td = cur.find("td", class_="fieldName")
+            return td is not None and td.get("colspan") == "2" and _text(td) in LATE_FIELD_LABELS
+        cur = cur.previous_sibling
+    return False
+
+
 def crawl_page(fn: str, text: str) -> Dict[str, Any]:
     """one HTML file -> raw references, anchors, attributed internal links, listing entries"""
     from bs4 import BeautifulSoup
@@ -885,11 +972,14 @@ def crawl_page(fn: str, text: str) -> Dict[str, Any]:
     page = canon_file(fn)
     refs: List[Tuple[str, str]] = []          # (attr, value) of every href/src
     anchors: List[str] = []                   # id / a[name] values
+    rstrefs: Dict[str, List[str]] = {}        # href of a docutils reference -> its classes
     for el in soup.find_all(True):
         for attr in ("href", "src"):
             v = el.get(attr)
             if v is not None:
                 refs.append((attr, v))
+                if attr == "href" and v.startswith("#rst-"):
+                    rstrefs.setdefault(v, []).extend(_classes(el))
         if el.get("id") is not None:
             anchors.append(el.get("id"))
         if el.name == "a" and el.get("name") is not None:
@@ -1012,6 +1102,8 @@ def crawl_page(fn: str, text: str) -> Dict[str, Any]:
             if id(a) in done:
                 return
             done.add(id(a))
+            if prod == "xref" and _in_late_field(a):
+                prod = "xref-late"
             links.append((prod, a.get("href"), a.get("title") or _text(a)))
         for sb in soup.find_all(class_="sidebar"):
             for tt in sb.find_all(class_="thingTitle"):
@@ -1109,7 +1201,7 @@ def crawl_page(fn: str, text: str) -> Dict[str, Any]:
         for a in A(soup):
             take("other", a)
     return {"page": page, "file": fn, "refs": refs, "anchors": anchors, "links": links, "entries": entries, "texts": texts,
-            "object_page": main is not None}
+            "object_page": main is not None, "rstrefs": rstrefs}
 
 
 def read_inventory(path: str) -> List[Tuple[str, str, str]]:
@@ -1201,7 +1293,7 @@ def request_line(facts: Dict[str, Any]) -> str:
             ",".join(enc(b) for b in o.get("basenames", [])) or "-", _nl(o.get("mro", [])), _nl(o.get("subclasses", [])),
             _ol(o.get("sigrefs", [])), _nl(o.get("ctors", [])),
             "-" if o.get("docctx") is None else str(o["docctx"]), "-" if o.get("module") is None else str(o["module"]),
-            _nl(o.get("valrefs", [])), "-" if o.get("ownctx") is None else str(o["ownctx"])]))
+            _nl(o.get("valrefs", [])), "-" if o.get("ownctx") is None else str(o["ownctx"]), _nl(o.get("laterefs", []))]))
     return "output run %d %d %s %s %s" % (facts["depth"], 1 if facts["nosidebar"] else 0, _nl(facts["roots"]),
                                           _nl(facts["all"]), " ".join(toks))
 
@@ -1223,7 +1315,7 @@ def _canon(items) -> str:
 
 
 # model sections that are compared as a union with one crawl section
-UNIONS = {"xref": ("docxref", "annxref", "valxref"), "modindex": ("modindex-root", "modindex")}
+UNIONS = {"xref": ("docxref", "fieldxref", "annxref", "valxref"), "modindex": ("modindex-root", "modindex")}
 MODEL_ONLY = ("dead", "hiddenlinks", "unmarked")
 # for real packages the harness cannot predict what docstrings, fields and expressions link to: these sections
 # are left to the direct oracles there
@@ -1249,7 +1341,7 @@ def impl_sections(res: Dict[str, Any]) -> Dict[str, str]:
             item = page + ">" + canon_href(href)
             if prod in ("table", "sidebar", "modindex", "classindex", "nameindex", "undoc"):
                 continue            # compared through their entries (with the marker)
-            if prod == "xref-header":
+            if prod in ("xref-header", "xref-late"):
                 prod = "xref"
             if prod in S and prod not in ("files", "anchors"):
                 S[prod].append(item)
@@ -1303,7 +1395,7 @@ PRODUCER_NAMES = {
     "table": "member-table", "sidebar": "sidebar", "sidebar-title": "sidebar", "heading": "heading",
     "classsig": "class-signature", "knownsub": "known-subclasses", "overrides": "overrides-note",
     "overriddenin": "overridden-in-note", "basename": "inherited-from", "basevia": "inherited-from",
-    "xref": "docstring-xref", "xref-header": "annotation", "extra": "constructor-note", "sumcopy": "summary",
+    "xref": "docstring-xref", "xref-late": "docstring-field", "xref-header": "annotation", "extra": "constructor-note", "sumcopy": "summary",
     "modindex": "module-index", "modindex-sum": "summary", "classindex": "class-index", "classindex-sum": "summary",
     "nameindex": "name-index", "undoc": "undocumented-summary", "indexroots": "index-root", "alldocs-sum": "summary",
     "inhierarchy": "view-in-hierarchy", "zope-from": "zope-from-note", "zope-list": "zope-list",
